@@ -11,8 +11,12 @@ HW == {[k |-> "hw", algs |-> a, single |-> s, chunks |-> c, seed |-> 7] :
           a \in AlgSeqs, s \in BOOLEAN, c \in Ch} 
 HWok == {v \in HW : v.single => Len(v.algs) = 1}
 Bufs == {<<1>>, <<200>>, <<1, 1, 1>>, <<2, 64, 200, 200>>, <<64, 64, 64, 64>>, <<3, 200>>}
-HR == {[k |-> "hr", algs |-> a, single |-> s, chunks |-> c, total |-> t, seed |-> 11] :
+\* the source may deliver its last bytes together with io.EOF ("dataerr"), one byte per call, or half a buffer
+HR == {[k |-> "hr", algs |-> a, single |-> s, chunks |-> c, total |-> t, seed |-> 11, src |-> "plain"] :
           a \in AlgSeqs, s \in BOOLEAN, c \in Bufs, t \in {0, 1, 5, 64, 130}}
+      \cup {[k |-> "hr", algs |-> a, single |-> s, chunks |-> c, total |-> t, seed |-> 13, src |-> sr] :
+          a \in {<<"sha256">>, <<"md5", "sha512">>, <<"sha1", "md5", "sha256", "sha512">>}, s \in BOOLEAN, c \in Bufs,
+          t \in {0, 1, 5, 130}, sr \in {"dataerr", "onebyte", "half"}}
 HRok == {v \in HR : v.single => Len(v.algs) = 1}
 Sources == {<<"sha256", "dsc256">>, <<"sha256", "best">>, <<"sha512", "best">>} \cup {<<a, "hasher">> : a \in Algs}
 RecordedKinds(alg) == {"equal", "upper", "unequal", "trunc_odd", "trunc_even", "empty_content_hash"} \cup
